@@ -1428,8 +1428,8 @@ class _Frame:
         if model == "EnumClass":
             # Enum lookup by value: ValueError for a non-member (default _missing_); unhashable values fall back to
             # a linear scan, so no TypeError.  A custom _missing_ is user code.
-            if self._flag_range_validated(call, env):
-                return Val(LOADED, frozenset({"enum-member"}))
+            # (a range test against the flag mask does NOT make Flag(value) total: with READ=1, PERM=12 the value 5 = READ|4 is
+            # inside the mask and refused by Python 3.11+ -- the former shortcut here encoded the comment in the source)
             self.add(esc, {"ValueError"}, call)
             return Val(LOADED, frozenset({"enum-member"}))
         if model == "RequestedClass":
